@@ -58,7 +58,8 @@ pub fn run(args: &Args) {
             let ttlog = st["ttlog"].as_bool().unwrap_or(false);
             let cancel_at = st["cancel_at"].as_u64().map(|n| n as usize);
             let hist: Vec<State> = st["history"].as_array().map(|a| a.iter().map(|f| state_of_fen(f.as_str().unwrap())).collect()).unwrap_or_default();
-            let mut art = if reuse { artifact.take() } else { None };
+            // "a fresh search memory": nothing of an earlier search is kept alive either
+            let mut art = if reuse { artifact.take() } else { artifact = None; None };
             let fresh = art.is_none();
             if fresh { recorded.clear(); }
             if art.is_none() {
@@ -137,7 +138,7 @@ pub fn public(args: &Args) {
         let stops = st["stops"].as_u64().unwrap_or(1);
         let drop_rx = st["drop_receiver"].as_bool().unwrap_or(false);
         let reuse = st["reuse"].as_bool().unwrap_or(true);
-        let prev = if reuse { artifact.take() } else { None };
+        let prev = if reuse { artifact.take() } else { artifact = None; None };
         out.ev(json!({"ev": "SearchStart", "sid": st["id"], "step": 0, "root": pos_json(&state), "fen": st["fen"], "depth": depth.map(|d| d as i64).unwrap_or(-1), "seed": seed.to_string(), "workers": 0,
                       "fresh": prev.is_none(), "history": [], "history_keys": [], "root_key": "", "history_len_before": 0, "entries_before": 0,
                       "cancel_at": -1, "tag": st["tag"].as_str().unwrap_or(""), "api": "public", "stop_after_ms": stop_ms.map(|c| c as i64).unwrap_or(-1), "drop_receiver": drop_rx}));
@@ -323,6 +324,13 @@ pub fn mate_cert(args: &Args) {
 pub fn mate_mine(args: &Args) {
     use rand::{Rng, SeedableRng};
     quiet_panics();
+    match args.get("--mode") {
+        Some("castle") => return mate_mine_castle(args),
+        Some("forced") => return mate_mine_shapes(args, "forced"),
+        Some("doomed") => return mate_mine_shapes(args, "doomed"),
+        Some("terminals") => return mate_mine_terminals(args),
+        _ => {}
+    }
     let count: usize = args.num("--count", 10);
     let seed: u64 = args.num("--seed", 1);
     let tries: usize = args.num("--tries", 400_000);
@@ -396,4 +404,233 @@ pub fn mate_mine(args: &Args) {
     }
     out.finish();
     println!("{}", json!({"found": found.len()}));
+}
+
+
+/// wv mate-mine --mode castle : (untrusted) miner of roots that still hold a castling right, have a forced mate within 3 plies
+/// with at least two mate-keeping first moves, one of which is a quiet king or rook move that gives the right up. Prints
+/// "<root fen> | <successor fen of that move> | <move>": the successor is what a C17 session records in the history.
+fn mate_mine_castle(args: &Args) {
+    use rand::{Rng, SeedableRng};
+    let count: usize = args.num("--count", 10);
+    let seed: u64 = args.num("--seed", 1);
+    let tries: usize = args.num("--tries", 400_000);
+    let mut rng = rand_chacha::ChaCha8Rng::seed_from_u64(seed);
+    let mut out = Out::new(args.get("--out"));
+    let mut found = std::collections::BTreeSet::new();
+    for t in 0..tries {
+        if found.len() >= count { break; }
+        let white = t % 2 == 0;
+        let mut board = vec!['.'; 64];
+        let (k, ra, rh) = if white { (4usize, 0usize, 7usize) } else { (60, 56, 63) };
+        let side_k = rng.gen_bool(0.5);
+        board[k] = if white { 'K' } else { 'k' };
+        board[if side_k { rh } else { ra }] = if white { 'R' } else { 'r' };
+        let mut free: Vec<usize> = (0..64).filter(|s| board[*s] == '.').collect();
+        let mut put = |rng: &mut rand_chacha::ChaCha8Rng, board: &mut Vec<char>, c: char| {
+            let i = rng.gen_range(0..free.len());
+            let s = free.remove(i);
+            board[s] = c;
+        };
+        let pcs = if white { ['R', 'Q', 'R', 'B'] } else { ['r', 'q', 'r', 'b'] };
+        for _ in 0..rng.gen_range(1..3) { let c = pcs[rng.gen_range(0..4)]; put(&mut rng, &mut board, c); }
+        put(&mut rng, &mut board, if white { 'k' } else { 'K' });
+        if rng.gen_bool(0.3) { let c = if white { 'n' } else { 'N' }; put(&mut rng, &mut board, c); }
+        let mut rows = vec![];
+        for r in (0..8).rev() {
+            let mut row = String::new();
+            let mut gap = 0;
+            for f in 0..8 {
+                let c = board[r * 8 + f];
+                if c == '.' { gap += 1; } else { if gap > 0 { row.push_str(&gap.to_string()); gap = 0; } row.push(c); }
+            }
+            if gap > 0 { row.push_str(&gap.to_string()); }
+            rows.push(row);
+        }
+        let place = rows.join("/");
+        let right = match (white, side_k) { (true, true) => "K", (true, false) => "Q", (false, true) => "k", (false, false) => "q" };
+        let (stm, other) = if white { ("w", "b") } else { ("b", "w") };
+        // kings apart, the side not to move not in check
+        let ok = std::panic::catch_unwind(|| { let f = state_of_fen(&format!("{} {} - - 0 1", place, other)); !f.is_check() }).unwrap_or(false);
+        if !ok { continue; }
+        let fen = format!("{} {} {} - {} {}", place, stm, right, rng.gen_range(0..30), rng.gen_range(20..60));
+        let root = state_of_fen(&fen);
+        let moves = MoveGenerator::compute_legal_moves(&root);
+        let mut n_found = None;
+        for n in [1usize, 3] {
+            let mut budget = 100_000i64;
+            if win_in(&root, n, None, &mut budget).is_some() { n_found = Some(n); break; }
+            if budget < 0 { break; }
+        }
+        let Some(n) = n_found else { continue };
+        let mut keepers = vec![];
+        for r in moves.moves().iter() {
+            let mut budget = 100_000i64;
+            if win_in(&root, n, Some(r.0), &mut budget).is_some() { keepers.push((r.0, r.1.clone())); }
+        }
+        if keepers.len() < 2 { continue; }
+        let giving_up: Vec<&(Move, State)> = keepers.iter().filter(|(m, _)| {
+            m.capture().is_none() && m.castle_side().is_none()
+                && (m.piece() == Piece::King || (m.piece() == Piece::Rook && mv_str(m).starts_with(if side_k { if white { "h1" } else { "h8" } } else if white { "a1" } else { "a8" })))
+        }).collect();
+        // all of them are recorded; at least one other mate-keeping move must remain
+        if giving_up.is_empty() || giving_up.len() == keepers.len() { continue; }
+        if found.insert(fen.clone()) {
+            out.raw(&format!("{} | {} | {} | mate in {} plies, {} mate-keeping first moves", fen, giving_up.iter().map(|(_, s)| fen_of(s)).collect::<Vec<_>>().join(" ; "),
+                             giving_up.iter().map(|(m, _)| mv_str(m)).collect::<Vec<_>>().join(" "), n, keepers.len()));
+            out.flush();
+        }
+    }
+    out.finish();
+    println!("{}", json!({"found": found.len()}));
+}
+
+/// Random legal position with the given side to move: kings, up to `extra` other men.
+fn random_position(rng: &mut rand_chacha::ChaCha8Rng, extra: usize) -> Option<String> {
+    use rand::Rng;
+    let mut board = vec!['.'; 64];
+    let mut free: Vec<usize> = (0..64).collect();
+    let mut put = |rng: &mut rand_chacha::ChaCha8Rng, board: &mut Vec<char>, c: char| -> bool {
+        let cand: Vec<usize> = free.iter().cloned().filter(|s| !(c == 'P' || c == 'p') || (s / 8 >= 1 && s / 8 <= 6)).collect();
+        if cand.is_empty() { return false; }
+        let s = cand[rng.gen_range(0..cand.len())];
+        free.retain(|x| *x != s);
+        board[s] = c;
+        true
+    };
+    put(rng, &mut board, 'K');
+    put(rng, &mut board, 'k');
+    let pcs = ['Q', 'R', 'B', 'N', 'P', 'P', 'q', 'r', 'b', 'n', 'p', 'p', 'R', 'r', 'Q', 'q'];
+    for _ in 0..rng.gen_range(1..=extra) { let c = pcs[rng.gen_range(0..pcs.len())]; put(rng, &mut board, c); }
+    let mut rows = vec![];
+    for r in (0..8).rev() {
+        let mut row = String::new();
+        let mut gap = 0;
+        for f in 0..8 {
+            let c = board[r * 8 + f];
+            if c == '.' { gap += 1; } else { if gap > 0 { row.push_str(&gap.to_string()); gap = 0; } row.push(c); }
+        }
+        if gap > 0 { row.push_str(&gap.to_string()); }
+        rows.push(row);
+    }
+    let place = rows.join("/");
+    let (stm, other) = if rng.gen_bool(0.5) { ("w", "b") } else { ("b", "w") };
+    let ok = std::panic::catch_unwind(|| { let f = state_of_fen(&format!("{} {} - - 0 1", place, other)); !f.is_check() }).unwrap_or(false);
+    if !ok { return None; }
+    // kings not adjacent is implied (the side not to move would be in check)
+    Some(format!("{} {} - - {} {}", place, stm, rng.gen_range(0..40), rng.gen_range(20..70)))
+}
+
+/// wv mate-mine --mode forced : roots with exactly one legal move behind which the side to move has a forced mate in 3 or 5 plies.
+/// wv mate-mine --mode doomed : roots with at least one legal move where every legal move allows mate in one (by a capture for
+/// at least one of them).  Both untrusted: what is claimed about them is re-derived by mate-cert / judged by TLC from the rules.
+fn mate_mine_shapes(args: &Args, mode: &str) {
+    use rand::SeedableRng;
+    let count: usize = args.num("--count", 10);
+    let seed: u64 = args.num("--seed", 1);
+    let tries: usize = args.num("--tries", 2_000_000);
+    let mut rng = rand_chacha::ChaCha8Rng::seed_from_u64(seed);
+    let mut out = Out::new(args.get("--out"));
+    let mut found = std::collections::BTreeSet::new();
+    for _ in 0..tries {
+        if found.len() >= count { break; }
+        let Some(fen) = random_position(&mut rng, 6) else { continue };
+        let root = state_of_fen(&fen);
+        let moves = MoveGenerator::compute_legal_moves(&root);
+        if mode == "forced" {
+            if moves.moves().len() != 1 { continue; }
+            let mut n_found = None;
+            for n in [3usize, 5] {
+                let mut budget = 200_000i64;
+                if win_in(&root, n, None, &mut budget).is_some() { n_found = Some(n); break; }
+                if budget < 0 { break; }
+            }
+            let Some(n) = n_found else { continue };
+            let mut b1 = 1000i64;
+            if win_in(&root, 1, None, &mut b1).is_some() { continue; }
+            if found.insert(fen.clone()) { out.raw(&format!("{}  # one legal move, mate in {} plies", fen, n)); out.flush(); }
+        } else {
+            if moves.moves().is_empty() || root.is_check() && moves.moves().len() > 3 { continue; }
+            let mut all = true;
+            let mut by_capture = false;
+            for r in moves.moves().iter() {
+                let replies = MoveGenerator::compute_legal_moves(&r.1);
+                let mating: Vec<&MoveResult> = replies.moves().iter().filter(|x| x.1.is_check() && MoveGenerator::compute_legal_moves(&x.1).moves().is_empty()).collect();
+                if mating.is_empty() { all = false; break; }
+                if mating.iter().all(|x| x.0.capture().is_some()) { by_capture = true; }
+            }
+            if !all || !by_capture { continue; }
+            if found.insert(fen.clone()) { out.raw(&format!("{}  # {} legal move(s), each answered by mate in one (a capture for some)", fen, moves.moves().len())); out.flush(); }
+        }
+    }
+    out.finish();
+    println!("{}", json!({"found": found.len()}));
+}
+
+/// wv mate-mine --mode terminals : checkmates and stalemates of many shapes (which piece kinds give the check, double checks,
+/// stalemates with an enemy pawn next to the king, with own blocked men), a few per shape and colour. Untrusted: TLC decides
+/// what each position is (ChessTrace!TEval).
+fn mate_mine_terminals(args: &Args) {
+    use rand::SeedableRng;
+    let per_class: usize = args.num("--count", 4);
+    let seed: u64 = args.num("--seed", 1);
+    let tries: usize = args.num("--tries", 6_000_000);
+    let mut rng = rand_chacha::ChaCha8Rng::seed_from_u64(seed);
+    let mut out = Out::new(args.get("--out"));
+    let mut classes: std::collections::BTreeMap<String, Vec<String>> = Default::default();
+    for _ in 0..tries {
+        let Some(fen) = random_position(&mut rng, 5) else { continue };
+        let root = state_of_fen(&fen);
+        if !MoveGenerator::compute_legal_moves(&root).moves().is_empty() { continue; }
+        let f: Vec<&str> = fen.split_whitespace().collect();
+        let white = f[1] == "w";
+        let mut board = vec!['.'; 64];
+        for (ri, rank) in f[0].split('/').enumerate() {
+            let mut file = 0usize;
+            for ch in rank.chars() { if let Some(d) = ch.to_digit(10) { file += d as usize; } else { board[(7 - ri) * 8 + file] = ch; file += 1; } }
+        }
+        let ksq = board.iter().position(|c| *c == if white { 'K' } else { 'k' }).unwrap();
+        let (kf, kr) = ((ksq % 8) as i32, (ksq / 8) as i32);
+        let class = if root.is_check() {
+            // which enemy men attack the king's square: remove each in turn and see whether the check disappears is costly; classify by geometry instead
+            let mut kinds = vec![];
+            for (s, c) in board.iter().enumerate() {
+                if *c == '.' || c.is_ascii_uppercase() == white { continue; }
+                let (df, dr) = ((s % 8) as i32 - kf, (s / 8) as i32 - kr);
+                let k = c.to_ascii_uppercase();
+                let hit = match k {
+                    'P' => df.abs() == 1 && dr == if white { 1 } else { -1 },
+                    'N' => (df.abs(), dr.abs()) == (1, 2) || (df.abs(), dr.abs()) == (2, 1),
+                    'B' | 'R' | 'Q' => {
+                        let line = (k != 'B' && (df == 0 || dr == 0)) || (k != 'R' && df.abs() == dr.abs());
+                        line && {
+                            let (sf, sr) = (df.signum(), dr.signum());
+                            let n = df.abs().max(dr.abs());
+                            (1..n).all(|i| board[((kr + sr * i) * 8 + kf + sf * i) as usize] == '.')
+                        }
+                    }
+                    _ => false,
+                };
+                if hit { kinds.push(k); }
+            }
+            kinds.sort();
+            format!("mate by {} ({})", kinds.iter().collect::<String>(), f[1])
+        } else {
+            let enemy_pawn = if white { 'p' } else { 'P' };
+            let adj = (-1..=1).flat_map(|a| (-1..=1).map(move |b| (a, b))).any(|(a, b): (i32, i32)| {
+                a != 0 && b != 0 && (kf + a) >= 0 && (kf + a) < 8 && (kr + b) >= 0 && (kr + b) < 8 && board[((kr + b) * 8 + kf + a) as usize] == enemy_pawn
+            });
+            let own = board.iter().filter(|c| **c != '.' && c.is_ascii_uppercase() == white).count() - 1;
+            format!("stalemate{}{} ({})", if adj { ", enemy pawn diagonally next to the king" } else { "" }, if own > 0 { ", own blocked men" } else { "" }, f[1])
+        };
+        let v = classes.entry(class).or_default();
+        if v.len() < per_class && !v.contains(&fen) { v.push(fen); }
+    }
+    let mut n = 0;
+    for (c, v) in classes.iter() {
+        out.raw(&format!("# {}", c));
+        for f in v { out.raw(f); n += 1; }
+    }
+    out.finish();
+    println!("{}", json!({"found": n, "classes": classes.len()}));
 }
